@@ -614,8 +614,9 @@ def build(recipe):
     return entry, unreg, text
 
 
-def judge(h, recipe, raw=False):
-    """Plain oracle on one recipe. raw=True (replay of literal witnesses): no by-construction capping."""
+def judge(h, recipe, raw=False, regression=False):
+    """Plain oracle on one recipe. raw=True (replay of literal witnesses): no by-construction capping.
+    regression=True: a committed replay, not a generated case (not counted as non-trivial coverage)."""
     entry, unreg, text = build(recipe)
     kind = recipe["kind"]
     if not raw:
@@ -632,8 +633,8 @@ def judge(h, recipe, raw=False):
         h.exclude("lone_surrogate_not_a_text")
         return
     o = run_once(entry, text, unreg)
-    nt = o.consumed and text not in corpus_texts()
-    label = f"{kind}:{entry}:{o.status}"
+    nt = o.consumed and text not in corpus_texts() and not regression
+    label = f"{'replay' if regression else kind}:{entry}:{o.status}"
     h.case(recipe, nt, label=label, sample={"recipe": recipe, "text": text[:300], "outcome": o.status})
     if o.status == "excluded":
         h.exclude(o.type)
@@ -655,7 +656,7 @@ def judge(h, recipe, raw=False):
 
 
 def replay(h, recipe):
-    judge(h, recipe, raw=(recipe.get("kind") == "text"))
+    judge(h, recipe, raw=(recipe.get("kind") == "text"), regression=True)
 
 
 # ------------------------------------------------------------------------------------------------
